@@ -1498,6 +1498,10 @@ pub fn run(args: &Args, rep: &mut Reporter) {
             .args(["--resume", &format!("{},{},{},{}", resume.0, resume.1, resume.2, resume.3)])
             .args(["--disable", &disabled.join("|")])
             .args(["--deadline-s", &remaining.to_string()])
+            // the panic hook of the child is silent; a backtrace is only
+            // printed by the runtime when the child aborts (allocation
+            // failure), which names the repository frame at fault
+            .env("RUST_BACKTRACE", "1")
             .stdout(std::process::Stdio::null());
         if let Some(f) = stderr_file {
             cmd.stderr(f);
@@ -1600,6 +1604,7 @@ pub fn run(args: &Args, rep: &mut Reporter) {
         }
     }
     let _ = std::fs::remove_file(args.dir.join("child.stderr"));
+    rep.set_extra("entry_points", json!(targets().iter().map(|t| t.name.clone()).collect::<Vec<_>>()));
     rep.set_extra("bound", json!({"alloc": "peak > 3*16 MiB + 64*len", "per_input_timeout_s": 20, "budget_s": total_s}));
     rep.set_extra("skipped_entry_points", json!(["sos_server::BearerToken::new (sos-server is not a dependency of vcore; its payload decoder is covered as bearer:bs58+decode<BinaryEd25519Signature>)", "live HTTP server (vnet)"]));
 }
